@@ -14,7 +14,7 @@ FUNCTIONS = ["modular_vmap", "ModularVmap.eval / eval_jaxpr_modular_vmap / stage
              "VmapBatchHandler (sample batching rule)", "LogDensityVmapHandler (log-density batching rule)", "static_dim_length",
              "Vmap.simulate/assess/generate/update/regenerate/filter", "repeat (gf.vmap(in_axes=None, axis_size=n))"]
 BOUNDS = {
-    "modular_vmap": "13 functions with sampling and density sites (scalar, vector-valued, event-shaped (categorical, multivariate normal), distribution parameters passed by keyword, "
+    "modular_vmap": "13 functions (thorough: 8 of them again on batches of 3 and 4 lanes) with sampling and density sites (scalar, vector-valued, event-shaped (categorical, multivariate normal), distribution parameters passed by keyword, "
                     "sample_shape sites, scan and cond inside, nested modular_vmap, pytree arguments) x axis specifications "
                     "{0, (0,None), (None,0), 1, -1, None + axis_size, pytree prefix, axis_size given and inferred}; batch sizes 2 and 3 "
                     "(3 chosen equal to an inner dimension where pairing errors would otherwise hide); all argument values and outcomes",
@@ -139,11 +139,33 @@ def _functions():
 GFI_OPS = {"assess": C01, "simulate": C01, "generate": C02, "update": C03, "regenerate": C04}
 
 
+def _thorough_functions():
+    """thorough tier: the same functions on a batch of 3 (and 4) lanes, mapped along other axes"""
+    f32 = np.float32
+    F = _functions()
+    v3 = np.asarray([0.1, -0.2, 0.3], f32)
+    v4 = np.asarray([0.1, -0.2, 0.3, 0.7], f32)
+    M43 = np.arange(12, dtype=f32).reshape(4, 3) / 10.0
+    return {
+        "basic": (F["basic"][0], [((v3, v3 + f32(1.0)), 0, None), ((v4, f32(0.75)), (0, None), None), ((f32(0.25), f32(0.75)), None, 4)]),
+        "kwsite": (F["kwsite"][0], [((v3, v3 + f32(1.0)), 0, None)]),
+        "sshape": (F["sshape"][0], [((v4,), 0, None)]),
+        "scanned": (F["scanned"][0], [((v3, np.asarray([0.2, 0.3], f32)), (0, None), None), ((f32(0.1), M43), (None, 0), None)]),
+        "conded": (F["conded"][0], [((v3, np.asarray([True, False, True])), 0, None)]),
+        "nested": (F["nested"][0], [((M43,), 0, None), ((M43,), 1, None)]),
+        "cat": (F["cat"][0], [((M43,), 0, None), ((M43,), 1, None)]),
+        "two_sites": (F["two_sites"][0], [((v3, f32(0.75)), (0, None), None)]),
+    }
+
+
 def groups(tier, seed):
     gs = []
     fns = _functions()
     for name, (_, specs) in fns.items():
         gs += [f"mv:{name}:{i}" for i in range(len(specs))]
+    if tier == "thorough":
+        for name, (_, specs) in _thorough_functions().items():
+            gs += [f"mvt:{name}:{i}" for i in range(len(specs))]
     for c in corpus.cases("c08"):
         gs += [f"{op}:{c.name}" for op in GFI_OPS]
     return gs
@@ -151,9 +173,9 @@ def groups(tier, seed):
 
 def run_group(g, gid):
     kind, _, rest = gid.partition(":")
-    if kind == "mv":
+    if kind in ("mv", "mvt"):
         name, _, i = rest.partition(":")
-        fn, specs = _functions()[name]
+        fn, specs = (_functions() if kind == "mv" else _thorough_functions())[name]
         return mv(g, name, fn, *specs[int(i)])
     return GFI_OPS[kind].run_group(g, gid)
 
